@@ -35,8 +35,17 @@ impl Out {
         }
     }
     /// Keep the smallest violation of each (flavour, class).
-    pub fn report(&mut self, v: Violation) {
+    pub fn report(&mut self, mut v: Violation) {
         self.stats.inc("violating_cases");
+        if crate::flavor::collide() != 0 {
+            // the case must be replayed with the same key-hash mode
+            if let Some(o) = v.case.as_object_mut() {
+                o.insert("collide".into(), serde_json::json!(crate::flavor::collide()));
+            }
+            if !v.what.starts_with("[keys") {
+                v.what = format!("[keys of a type whose Hash maps every key to the same hash value] {}", v.what);
+            }
+        }
         let key = format!("{}|{}", v.flavour, v.class);
         match self.viols.get(&key) {
             Some(old) if old.order <= v.order => {}
@@ -161,14 +170,14 @@ pub fn long_family<F: Fl>(job: &Job, kmax: usize, out: &mut Out) {
             let w = match World::<F>::build(n, &h) {
                 Ok(w) => w,
                 Err((i, f)) => {
-                    out.report(Violation { property: prop.into(), engine: "seqx".into(), flavour: F::NAME.into(), class: format!("connect/{}/long-{}", f.kind(), fname), what: format!("connect number {} of a long history failed: {}", i, f.msg()), case: mk_case(F::NAME, n, &h, None), order: k as u64 });
+                    out.report(Violation { property: prop.into(), engine: "seqx".into(), flavour: F::NAME.into(), class: format!("history-step-{}-failed/{}", i, f.kind()), what: format!("connect number {} of a long history failed: {}", i, f.msg()), case: mk_case(F::NAME, n, &h, None), order: k as u64 });
                     break;
                 }
             };
             let pre = match w.observe() {
                 Ok(o) => o,
                 Err(f) => {
-                    out.report(Violation { property: prop.into(), engine: "seqx".into(), flavour: F::NAME.into(), class: format!("unobservable/{}/long-{}", f.kind(), fname), what: f.msg().to_string(), case: mk_case(F::NAME, n, &h, None), order: k as u64 });
+                    out.report(Violation { property: prop.into(), engine: "seqx".into(), flavour: F::NAME.into(), class: format!("unobservable/{}", f.kind()), what: f.msg().to_string(), case: mk_case(F::NAME, n, &h, None), order: k as u64 });
                     break;
                 }
             };
@@ -176,7 +185,7 @@ pub fn long_family<F: Fl>(job: &Job, kmax: usize, out: &mut Out) {
             out.stats.max("max_edges_at_one_node", pre.iter().map(|o| o.out.len() + o.inn.len()).max().unwrap_or(0) as u64);
             if prop != "C03" {
                 if let Err((code, detail)) = state_invariant(prop, &w, &pre) {
-                    out.report(Violation { property: prop.into(), engine: "seqx".into(), flavour: F::NAME.into(), class: format!("state/{}/long-{}", code, fname), what: detail, case: mk_case(F::NAME, n, &h, None), order: k as u64 });
+                    out.report(Violation { property: prop.into(), engine: "seqx".into(), flavour: F::NAME.into(), class: format!("state/{}/initial", code), what: detail, case: mk_case(F::NAME, n, &h, None), order: k as u64 });
                     continue;
                 }
             }
@@ -197,11 +206,11 @@ pub fn long_family<F: Fl>(job: &Job, kmax: usize, out: &mut Out) {
                         None => check_contract(F::DIRECTED, &pre, op, &ret, &pre),
                     };
                     if let Err((code, detail)) = chk {
-                        out.report(Violation { property: prop.into(), engine: "seqx".into(), flavour: F::NAME.into(), class: format!("{}/long-{}", code, fname), what: format!("{} after {} edges of family {}: {}", op.show(), k, fname, detail), case: mk_case(F::NAME, n, &h, Some(op)), order });
+                        out.report(Violation { property: prop.into(), engine: "seqx".into(), flavour: F::NAME.into(), class: format!("{}/{}", code, shape_tag(&pre, op)), what: format!("{} after {} edges of family {}: {}", op.show(), k, fname, detail), case: mk_case(F::NAME, n, &h, Some(op)), order });
                     }
                 } else if let Some(post) = &post {
                     if let Err((code, detail)) = state_invariant(prop, &w, post) {
-                        out.report(Violation { property: prop.into(), engine: "seqx".into(), flavour: F::NAME.into(), class: format!("state/{}/after-{}/long-{}", code, op.name(), fname), what: format!("{} after {} edges of family {}: {}", op.show(), k, fname, detail), case: mk_case(F::NAME, n, &h, Some(op)), order });
+                        out.report(Violation { property: prop.into(), engine: "seqx".into(), flavour: F::NAME.into(), class: format!("state/{}/after-{}/{}", code, op.name(), shape_tag(&pre, op)), what: format!("{} after {} edges of family {}: {}", op.show(), k, fname, detail), case: mk_case(F::NAME, n, &h, Some(op)), order });
                     }
                 }
             }
